@@ -177,6 +177,13 @@ func (r *record) stamp(o obsRec) {
 
 // waitFor blocks until pred holds on the record (evaluated under the mutex) or the deadline passes.
 func (r *record) waitFor(pred func(seq []obsRec) bool) bool {
+	if timeouts.Load() >= maxTimeouts {
+		// the run has already seen several liveness failures (and will be reported): do not
+		// spend waitDeadline on every further wait
+		r.mu.Lock()
+		defer r.mu.Unlock()
+		return pred(r.seq)
+	}
 	deadline := time.Now().Add(waitDeadline)
 	stop := make(chan struct{})
 	defer close(stop)
